@@ -258,7 +258,7 @@ func genState(t *rapid.T) State {
 	for i := 0; i < nd; i++ {
 		s.DepHashes = append(s.DepHashes, genHash(t, "dep"))
 	}
-	fpKeys := rapid.SliceOfNDistinct(rapid.SampledFrom([]string{"a", "b", "k", "a=b", "version", "k,l"}), 0, 3, rapid.ID[string]).Draw(t, "fpkeys")
+	fpKeys := rapid.SliceOfNDistinct(rapid.SampledFrom([]string{"a", "b", "k", "a=b", "version", "k,l", "platform", "os", "arch", "label", "command", "multiplatform-cache"}), 0, 3, rapid.ID[string]).Draw(t, "fpkeys")
 	for _, k := range fpKeys {
 		s.Fingerprint = append(s.Fingerprint, [2]string{k, rapid.SampledFrom([]string{"", "1", "b", "b=c", "v,w", "c"}).Draw(t, "fpval")})
 	}
@@ -310,7 +310,7 @@ var differKinds = []string{
 	"single:label-name", "single:label-pkg", "single:command", "single:content", "single:add-input", "single:remove-input", "single:rename-input",
 	"single:output", "single:dep", "single:fp-value", "single:fp-key", "single:platform",
 	"shift:file-boundary", "shift:file-boundary-header", "shift:file-boundary-trailer", "shift:present-absent", "shift:list-element-inputs", "shift:label-command", "shift:command-inputs",
-	"shift:inputs-outputs", "shift:outputs-deps", "shift:deps-fingerprint", "shift:fingerprint-platform", "shift:fp-key-value", "shift:fp-list-element",
+	"shift:inputs-outputs", "shift:outputs-deps", "shift:deps-fingerprint", "shift:fingerprint-platform", "shift:fingerprint-names-platform", "shift:fp-key-value", "shift:fp-list-element",
 }
 
 var trailerHeaders = []func(string) string{
@@ -596,6 +596,20 @@ func derive(t *rapid.T, a *State, kind string) (State, bool) {
 		b = a.clone()
 		b.DepHashes = nil
 		b.Fingerprint = [][2]string{{h + "a", "b"}}
+	case "shift:fingerprint-names-platform":
+		// a fingerprint entry that spells out the platform is not the platform component: a platform-independent target
+		// carrying {<name>: os/arch} and a platform-dependent one without that entry are different states
+		name := rapid.SampledFrom([]string{"platform", "os", "arch", "Platform"}).Draw(t, "fpname")
+		rest := [][2]string{}
+		for _, kv := range a.Fingerprint {
+			if kv[0] != name {
+				rest = append(rest, kv)
+			}
+		}
+		a.Fingerprint = rest
+		b = a.clone()
+		a.Multi, b.Multi = true, false
+		a.Fingerprint = append([][2]string{{name, a.OS + "/" + a.Arch}}, rest...)
 	case "shift:fingerprint-platform":
 		a.Multi = false
 		a.Fingerprint = [][2]string{{"a", "b"}}
